@@ -111,7 +111,11 @@ class Tr(object):
             if e.id in ('None', 'True', 'False'):
                 return ('fresh', [])
             return ('var', e.id)
-        if isinstance(e, (ast.Constant, ast.JoinedStr, ast.Lambda, ast.BinOp, ast.UnaryOp, ast.Compare)):
+        if isinstance(e, ast.BinOp):
+            # `(k,) + (buf,)`, `[a] * n`: a new object that holds what its operands' displays hold
+            return ('fresh', self.stored_names(e.left) + self.stored_names(e.right)
+                    + [n for side in (e.left, e.right) if isinstance(side, ast.BinOp) for n in self.classify(side)[1]])
+        if isinstance(e, (ast.Constant, ast.JoinedStr, ast.Lambda, ast.UnaryOp, ast.Compare)):
             return ('fresh', [])
         if isinstance(e, (ast.List, ast.Tuple, ast.Set, ast.Dict, ast.ListComp, ast.SetComp, ast.DictComp, ast.GeneratorExp)):
             return ('fresh', self.stored_names(e))
@@ -228,6 +232,12 @@ class Tr(object):
                 v = n.value
                 if isinstance(v, ast.Name):
                     out.append(('release', v.id))
+                elif isinstance(v, ast.BinOp):
+                    out += [('release', x) for x in self.classify(v)[1]]
+                elif isinstance(v, ast.Call) and not (isinstance(v.func, ast.Name) and v.func.id in FRESH_CALLS):
+                    # `yield f(buf)`: what an unknown function returns may be, or hold, its argument
+                    out += [('release', a.id) for a in v.args if isinstance(a, ast.Name)]
+                    out += [('release', x) for a in v.args for x in self.stored_names(a)]
                 elif v is not None:
                     out += [('release', x) for x in self.stored_names(v)]
         return out
